@@ -67,6 +67,8 @@ def write_replay(pid, name, payload):
 def run_property(pid, tier="quick", seed=0):
     t0 = time.time()
     core.load_known_findings()
+    import shutil
+    shutil.rmtree(os.path.join(VERIF, "replays", pid), ignore_errors=True)
     mod = importlib.import_module("contracts.%s" % pid.lower())
     plan = mod.plan(tier, seed)
     violations = []       # (replay path, confirmed)
@@ -220,10 +222,10 @@ def run_property(pid, tier="quick", seed=0):
         lines.append("UNDECIDED property=%s obligation=%s :: %s" % (pid, u["case"], u["why"].splitlines()[0][:300]))
     for c in crashes:
         lines.append("CHECKER-FAILURE property=%s at=%s :: %s" % (pid, c["case"], c["why"][:2000]))
-    if crashes:
-        code = 3
-    elif violations:
+    if violations:
         code = 1
+    elif crashes:
+        code = 3
     elif undecided:
         code = 2
     else:
